@@ -18,7 +18,7 @@ RULE = ('reachable topologies (random valid building histories of length 15-45, 
         'link/sub-interface/service interface, disconnect_interface, unpeer), each on a restored copy of the state. One evaluation = '
         'one (state, operation); distinct by (state hash, operation); non-trivial when the predicted deletion set has more than one '
         'element')
-REQUIRED = ['states', 'ops', 'ops:remove_node', 'ops:remove_component', 'ops:remove_network_service', 'ops:disconnect_interface',
+REQUIRED = ['ops:disconnect-through-out-of-date-handle', 'states', 'ops', 'ops:remove_node', 'ops:remove_component', 'ops:remove_network_service', 'ops:disconnect_interface',
             'ops:remove_child_interface', 'ops:unpeer', 'ops:remove_link', 'ops:remove_facility', 'ops:remove_switch',
             'ops:service_remove_interface', 'ops:remove_node_service', 'prediction-compared', 'handle-compared',
             'shape:connected-sub-interface', 'shape:link-with-3-ends', 'shape:peered-services', 'shape:connected-interface-removed',
@@ -149,6 +149,7 @@ def applicable_ops(tm, g):
             if svc in top:
                 ops.append({'op': 'disconnect_interface', 'service': tm.name(svc), 'iface': ref, '_iface_id': i, 'cached': False})
                 ops.append({'op': 'disconnect_interface', 'service': tm.name(svc), 'iface': ref, '_iface_id': i, 'cached': True})
+                ops.append({'op': 'disconnect_interface', 'service': tm.name(svc), 'iface': ref, '_iface_id': i, 'cached': 'creation'})
     seen = set()
     for s in top:
         for cp in tm.ifaces_of_service(s):
@@ -193,6 +194,7 @@ def check_state(ctx, imp, store, flavour, topo, script):
     ctx.count('states')
     shash = __import__('vlib.core', fromlist=['digest']).digest(pre)
     others_before = {k: v for k, v in canon.store_snapshot(imp)[0].items() if k != gid}
+    creation_handles = dict(getattr(topo, '_verif_handles', {}))      # handles returned when the services were created
     for op in applicable_ops(tm, g):
         if ctx.out_of_time():
             break
@@ -201,8 +203,20 @@ def check_state(ctx, imp, store, flavour, topo, script):
         w = {'store': store, 'flavour': flavour, 'script': script, 'op': pub}
         # handles through which the operation is performed, obtained BEFORE it (what a user holds)
         handles = {}
+        pre_stale = False
         try:
-            if op['op'] in ('disconnect_interface', 'service_remove_interface'):
+            if op.get('cached') == 'creation':
+                h0 = creation_handles.get(op['service'])
+                if h0 is None or h0.node_id not in pre['nodes']:
+                    continue
+                handles['service'] = h0
+                ctx.count('ops:disconnect-through-creation-time-handle')
+                # a handle that was already out of date before the call (the interface was connected through another
+                # handle): only the model effect is judged for it, not its list afterwards
+                pre_stale = sorted(i.node_id for i in h0.interface_list) != sorted(tm.ifaces_of_service(h0.node_id))
+                if pre_stale:
+                    ctx.count('ops:disconnect-through-out-of-date-handle')
+            elif op['op'] in ('disconnect_interface', 'service_remove_interface'):
                 handles['service'] = topogen.get_service(topo, op['service'])
             if op['op'] == 'unpeer':
                 handles['a'] = topogen.get_service(topo, op['a'])
@@ -222,7 +236,7 @@ def check_state(ctx, imp, store, flavour, topo, script):
             if op['op'] == 'remove_child_interface':
                 handles['iface'].remove_child_interface(name=op['name'])
             else:
-                topogen.execute(topo, dict(pub, cached=bool(handles) and op.get('cached') is not False))
+                topogen.execute(topo, dict(pub, cached=bool(handles) and op.get('cached') is not False))   # 'creation' is truthy
             exc = None
         except topogen.Unresolved:
             restore(imp, gid, saved)
@@ -260,7 +274,7 @@ def check_state(ctx, imp, store, flavour, topo, script):
         if others_after != others_before:
             ctx.violation(f'C08/{op["op"]}-touches-other-graph', 'a removal does not touch other graphs', w)
         # handle consistency
-        if exc is None and op.get('cached') is not False:
+        if exc is None and op.get('cached') is not False and not pre_stale:
             for k, h in handles.items():
                 nid = h.node_id
                 if nid not in post['nodes']:
@@ -276,7 +290,7 @@ def check_state(ctx, imp, store, flavour, topo, script):
                     ctx.violation(f'C08/{op["op"]}-handle-stale:{k}', 'the handle through which the operation was performed lists the '
                                   'same interfaces as a freshly looked-up handle', dict(w, handle=k, handle_lists=a, fresh_lists=b))
         restore(imp, gid, saved)
-        topo._verif_handles = {}
+        topo._verif_handles = dict(creation_handles)
 
 
 def build_state(ctx, imp, flavour, tag):
